@@ -111,10 +111,10 @@ CLAIMED = {
         technique="Coq proof (append-only heap; sorted-list ranking) + vm_compute correspondence + snapshot search",
         design="§7 C15"),
     "C17": dict(
-        text=("Proof (Coq): for every optimizer in the pinned structurally-elitist set (56; the set is recomputed from the source on every run and must "
+        text=("Proof (Coq): for every optimizer in the pinned structurally-elitist set (57; the set is recomputed from the source on every run and must "
               "contain the pinned one) and every step that edits the population only through its listed writes, each generation contains an agent at "
               "least as good as every agent of every earlier generation, on internal costs and - via the sign restoration - in the task's direction for "
-              "min and max alike; hence best_solution is the best ever recorded. Uses the regenerated greedy/trim helpers (C16). 14 further optimizers, elitist by observation "
+              "min and max alike; hence best_solution is the best ever recorded. Uses the regenerated greedy/trim helpers (C16). 13 further optimizers, elitist by observation "
               "only (monotone in >= 950 runs each on the pinned tree), are covered by SEARCH ONLY, pinned by the hash of their source; fresh and reused instances, noisy / stateful objectives (a kept agent keeps the cost recorded when it was built)."),
         note=TB + " Classification is conservative (syntactic); step_conforms is a hypothesis; no NaN costs; population_size >= 1.",
         technique="Coq proof (keeps_best for each elitist population write, induction over writes and cycles) + search over the elitist set",
